@@ -847,11 +847,17 @@ func checkContent(res *prodResult, vs *violSet, vtag string, ms *msgSpec, r sara
 		wantVal = nil
 	}
 	// interceptors of C18 append suffixes; C04 scenarios have none
-	if !bytes.Equal(wantKey, r.Key) || (wantKey == nil) != (r.Key == nil) && len(wantKey)+len(r.Key) > 0 {
+	if !bytes.Equal(wantKey, r.Key) {
 		vs.add("content-mismatch", vtag+",key", fmt.Sprintf("%s/%d offset %d: key %q (nil=%v) stored for message id=%d whose key is %q (nil=%v)", t, p, r.Offset, r.Key, r.Key == nil, ms.ID, wantKey, wantKey == nil))
+	} else if (wantKey == nil) != (r.Key == nil) {
+		// an empty key and no key are different things on the wire (length 0 / -1)
+		vs.add("content-mismatch", vtag+",key-null-vs-empty", fmt.Sprintf("%s/%d offset %d: key stored as nil=%v for message id=%d whose key is nil=%v", t, p, r.Offset, r.Key == nil, ms.ID, wantKey == nil))
 	}
 	if !bytes.Equal(wantVal, r.Value) {
 		vs.add("content-mismatch", vtag+",value", fmt.Sprintf("%s/%d offset %d: value %q stored for message id=%d whose value is %q", t, p, r.Offset, r.Value, ms.ID, wantVal))
+	} else if (wantVal == nil) != (r.Value == nil) {
+		// an empty value is a record, a null value is a tombstone
+		vs.add("content-mismatch", vtag+",value-null-vs-empty", fmt.Sprintf("%s/%d offset %d: value stored as nil=%v for message id=%d whose value is nil=%v", t, p, r.Offset, r.Value == nil, ms.ID, wantVal == nil))
 	}
 	if sc.Version.IsAtLeast(sarama.V0_11_0_0) && !headersEqual(ms.Headers, r.Headers) {
 		vs.add("content-mismatch", vtag+",headers", fmt.Sprintf("%s/%d offset %d: headers %v stored for message id=%d whose headers are %v", t, p, r.Offset, r.Headers, ms.ID, ms.Headers))
